@@ -1,6 +1,9 @@
 (* C12Theorems.v — the property theorems of C12 and nothing else. *)
 From V.lib Require Import Base.
+From V.c05 Require Import C05CodecModel.
+From V.c02 Require Import C02AggModel C02AggFragProofs C02AggScanProofs.
 From V.c12 Require Import C12Model C12Spec C12Sidx C12PartProofs C12BoundProofs C12ShapeProofs C12EncProofs C12SidxProofs.
+From V.c12 Require Import C12Bytes C12BytesProofs C12StreamProofs.
 
 (* Every accepted top-level sequence, every flag combination: the children of the fragments of the
    segments, flattened in order, are exactly the emsg/moof/mdat boxes of the input in order (minus
@@ -68,6 +71,68 @@ Theorem C12_segment_mode_encode : forall (o : opts) (bs : list topbox) (f : file
   Forall (fun s => Forall (fun fr => is_some (fr_moof fr) = true /\ is_some (fr_mdat fr) = true) (sg_frags s)) (f_segs f).
 Proof. exact segment_mode_encode. Qed.
 Print Assumptions C12_segment_mode_encode.
+
+(* Re-encoding in the default segment mode is the identity, box for box: for EVERY accepted top-level
+   sequence of the shape  [ftyp] moov(fragmented) sidx* ( styp sidx* | emsg | moof | mdat )* [mfra]
+   (C12Bytes.layout_ok; also without the init part), whatever the decode flags and whichever delimiter
+   (styp, sidx references, tfra, start-on-moof) cut it into segments, File.Encode writes exactly the
+   input boxes in the input order.  An emsg before the first moof, several top-level sidx boxes, sidx
+   boxes behind a styp, an mfra at the end are all inside. *)
+Theorem C12_reencode_boxes : forall (o : opts) (bs : list topbox) (f : file) (out : list topbox),
+  assemble o bs = Ok f -> layout_ok bs = true -> encode_segment_mode f = Ok out -> out = bs.
+Proof. exact reencode_boxes. Qed.
+Print Assumptions C12_reencode_boxes.
+
+(* ... and byte for byte.  env gives, per box, its input bytes, the bytes its decoded form encodes to, and
+   for a moof with a single trun the position of that trun's data_offset field.  Hypotheses: every box
+   re-encodes to its own bytes (`stable`: C01's statement per box), every input box starts with a correct
+   size field (`all_ok`: C02's box_ok), and (`doffs_ok`) the data offset of a single-trun fragment already
+   is moof size + mdat header size, the value Fragment.Encode's SetTrunDataOffsets writes over it.  Then:
+   following the size fields of the input stream splits it into exactly these boxes (C02's scan), and
+   decode + File.Encode (segment mode, no UpdateSidx, no optimisation, mdat read eagerly) writes exactly
+   these byte strings in this order: the output stream IS the input stream.  All decode flags. *)
+Theorem C12_reencode_identical : forall (env : N -> binfo) (o : opts) (bs : list topbox) (f : file) (out : list topbox),
+  assemble o bs = Ok f -> layout_ok bs = true -> encode_segment_mode f = Ok out ->
+  forallb (stable env) bs = true -> doffs_ok env bs = true ->
+  all_ok (map (in0 env) bs) ->
+  let stream := concat (map (in0 env) bs) in
+  scan (length bs) stream = Some (map (in0 env) bs) /\
+  out = bs /\
+  exists written, file_bytes env f = Ok written /\ written = map (in0 env) bs /\ concat written = stream /\
+                  reencode env o bs = Ok stream.
+Proof. exact reencode_stream. Qed.
+Print Assumptions C12_reencode_identical.
+
+(* Outside layout_ok File.Encode does NOT reproduce the file (each line: accepted, encoded without error,
+   tags of the boxes written): a free box is dropped; a sidx behind a fragment moves in front of its
+   segment's fragments; an mfra that is not last moves to the end; an ftyp behind the moov, the first of two
+   moov boxes, a non-fragmented moov (with its ftyp) and an mdat in front of the first fragment are dropped;
+   a sidx in front of the moov moves behind it. *)
+Theorem C12_reencode_refuted :
+  tags_after [rb KFtyp 24; rmoov true; rb KOther 16; rb KMoof 100; rb KMdat 40] = Ok [0; 1; 3; 4] /\
+  tags_after [rb KFtyp 24; rmoov true; rb KStyp 24; rb KMoof 100; rb KMdat 40; rb KSidx 44; rb KMoof 100; rb KMdat 40]
+    = Ok [0; 1; 2; 5; 3; 4; 6; 7] /\
+  tags_after [rb KFtyp 24; rmoov true; rb KMoof 100; rb KMdat 40; rb KMfra 60; rb KMoof 100; rb KMdat 40]
+    = Ok [0; 1; 2; 3; 5; 6; 4] /\
+  tags_after [rmoov true; rb KFtyp 24; rb KMoof 100; rb KMdat 40] = Ok [0; 2; 3] /\
+  tags_after [rb KFtyp 24; rmoov true; rmoov true; rb KMoof 100; rb KMdat 40] = Ok [0; 2; 3; 4] /\
+  tags_after [rb KFtyp 24; rb KSidx 44; rmoov true; rb KMoof 100; rb KMdat 40] = Ok [0; 2; 1; 3; 4] /\
+  tags_after [rb KFtyp 24; rmoov false; rb KMoof 100; rb KMdat 40] = Ok [2; 3] /\
+  tags_after [rb KMdat 40; rb KStyp 24; rb KMoof 100; rb KMdat 40] = Ok [1; 2; 3].
+Proof. exact reencode_refuted. Qed.
+Print Assumptions C12_reencode_refuted.
+
+(* Without doffs_ok: a layout_ok file of stable boxes whose only trun has data offset 132 (moof 120 + mdat
+   header 8 + 4: the sample starts 4 bytes into the payload) is re-encoded with data offset 128: not
+   byte-identical, and the sample now points 4 bytes early.  Real code: known_findings/C12.json C12-K1. *)
+Theorem C12_reencode_doff_refuted :
+  layout_ok doff_boxes = true /\ forallb (stable doff_env) doff_boxes = true /\ doffs_ok doff_env doff_boxes = false /\
+  exists out, reencode doff_env (mkOpts false false) doff_boxes = Ok out /\
+              out <> concat (map (in0 doff_env) doff_boxes) /\
+              firstn 4 (skipn (8 + 9 + 96) out) = be32 128 /\
+              firstn 4 (skipn (8 + 9 + 96) (concat (map (in0 doff_env) doff_boxes))) = be32 132.
+Proof. exact reencode_doff_refuted. Qed.
+Print Assumptions C12_reencode_doff_refuted.
 
 (* After UpdateSidx (when it adds or refills an index) and segment-mode encoding: for every i, the
    output splits into `before` ++ segments i.. ++ mfra where `before` has exactly
@@ -189,3 +254,20 @@ Example C12_example_tiles :
   | _ => False
   end.
 Proof. vm_compute. repeat split; reflexivity. Qed.
+
+(* ftyp moov sidx styp sidx emsg moof mdat emsg moof mdat mfra, both decode flags set: satisfies every
+   hypothesis of C12_reencode_identical *)
+Example C12_example_reencode :
+  layout_ok ok_boxes = true /\ forallb (stable ok_env) ok_boxes = true /\ doffs_ok ok_env ok_boxes = true /\
+  all_ok (map (in0 ok_env) ok_boxes) /\
+  exists f out, assemble (mkOpts true true) ok_boxes = Ok f /\ encode_segment_mode f = Ok out /\
+                length (f_segs f) = 1%nat /\ lenN (concat (map (in0 ok_env) ok_boxes)) = 268.
+Proof. exact reencode_example. Qed.
+
+(* three tracks, the reference track (first video = id 7) is the LAST trak and its traf comes second / is absent *)
+Example C12_example_reference_track :
+  find_reference_trak [mkTrak 3 1 48000 true; mkTrak 9 2 1000 true; mkTrak 7 0 90000 true] = Ok (mkTrak 7 0 90000 true) /\
+  seg_ref_dur 7 (mkSeg None 0 [] [mkFrag 0 [] (Some (mkBox KMoof 0 100 8 0 [] false [] false
+                     [mkTraf 3 0 [[5; 5]] 0; mkTraf 7 0 [[10]; []; [20; 30]] 0] [] 0 0 0 0)) None;
+                   mkFrag 0 [] (Some (mkBox KMoof 1 100 8 0 [] false [] false [mkTraf 9 0 [[1]] 0] [] 0 0 0 0)) None]) = 60.
+Proof. split; reflexivity. Qed.
